@@ -293,14 +293,14 @@ def lin_negative(report, dev, expect, over=None):
         raise Machinery("deviation %s (Lin) produced no counterexample" % dev)
 
 
-LIFE_INVARIANTS = ["Inv_C06_Contiguous", "Inv_C08_Arms"]
+LIFE_INVARIANTS = ["Inv_C06_Contiguous", "Inv_C08_Arms", "Inv_C14_Epoch"]
 LIFE_PROPERTIES = ["Prop_C07_FitIsFresh", "Prop_C10_ReadOnly", "Prop_C17_RejectUnchanged"]
 
 
 def life_consts(**over):
     c = dict(Labels={"a", "b", "c", "d"}, InitArms=["a", "b", "c"], NRows=10, Offsets={0, 1, 3}, WideOffsets=set(), MaxChunk=3, MaxHist=6, MinFit=1, MinArms=2,
              MaxDepth=4, Ops={"fit", "partial_fit", "add_arm", "remove_arm", "predict", "predict_expectations"},
-             RejectKinds=set(), QueryRows={1, 3}, Quantiles={(1, 2), (1, 1)}, Dev=set())
+             RejectKinds=set(), QueryRows={1, 3}, Quantiles={(1, 2), (1, 1)}, EpochOnAdd=False, Dev=set())
     c.update(over)
     return c
 
